@@ -498,6 +498,7 @@ const (
 	ambIntegralFloat = "integral number not written as an integer literal"
 	ambBeyond2p53    = "number beyond 2^53 or not finite"
 	ambItemNotList   = "non-list item inside a list of lists (spec editions differ)"
+	fItemNotList     = "non-list item inside a list of lists (October 2021 reading)"
 )
 
 // verdict of the label for a whole request.
@@ -619,8 +620,16 @@ func (c *coercer) coerce(t *typ, v *jv, path []string, pos, field string) {
 		}
 		for i, it := range v.A {
 			if t.Elem.isList() && it.K != jArr && it.K != jNull {
-				// October 2021: error; September 2025 / graphql-js: wrapped. Not judged.
-				c.amb(ambItemNotList)
+				// October 2021: error; September 2025 / graphql-js: wrapped. Either
+				// edition is admissible, but one of them consistently (nestedItemMode).
+				switch nestedItemMode {
+				case nestedWrap:
+				case nestedError:
+					c.add(fault{Kind: fItemNotList, Group: "structural", Leaf: "list", Pos: itemPos, Path: copyPath(path, fmt.Sprintf("[%d]", i)), Field: field})
+					continue
+				default:
+					c.amb(ambItemNotList)
+				}
 			}
 			c.coerce(t.Elem, it, copyPath(path, fmt.Sprintf("[%d]", i)), itemPos, field)
 		}
@@ -786,4 +795,118 @@ func (c *coercer) scalar(name string, v *jv, path []string, pos, field, leaf str
 			bad(fScalarKind)
 		}
 	}
+}
+
+// nestedItemMode: how a non-list, non-null item inside a list of lists is
+// labelled. The October 2021 edition makes it an error, the September 2025
+// edition (and graphql-js) wraps it. Unknown: not judged. The check sets the
+// mode from the implementation's behaviour on the simplest such input and then
+// demands that reading everywhere.
+const (
+	nestedUnknown = iota
+	nestedWrap
+	nestedError
+)
+
+var nestedItemMode = nestedUnknown
+
+// coercedValue is the value after list input coercion alone: single values are
+// wrapped wherever a list is expected (recursively), nothing else changes;
+// defaults are NOT filled in. Only meaningful for coercible values.
+func coercedValue(u universe, t *typ, v *jv) *jv {
+	if v.K == jNull {
+		return v
+	}
+	if t.isList() {
+		if v.K != jArr {
+			return jarr(coercedValue(u, t.Elem, v))
+		}
+		out := &jv{K: jArr}
+		for _, it := range v.A {
+			out.A = append(out.A, coercedValue(u, t.Elem, it))
+		}
+		return out
+	}
+	d := u[t.Name]
+	if d == nil || d.Kind != kInput || v.K != jObj {
+		return v
+	}
+	out := &jv{K: jObj}
+	for _, m := range v.O {
+		if f := d.field(m.Key); f != nil {
+			out.O = append(out.O, jkv{m.Key, coercedValue(u, f.T, m.V)})
+		} else {
+			out.O = append(out.O, m)
+		}
+	}
+	return out
+}
+
+// forwardedMatches: got (the variables after admission) is want (coercedValue)
+// except that members may have been ADDED for absent input fields that declare
+// a default (the engine injects defaults; their value is not judged). Returns
+// "" or a description of the first difference.
+func forwardedMatches(u universe, t *typ, want, got *jv, path string) string {
+	if want.K != got.K {
+		return fmt.Sprintf("at %s: expected %s, got %s", path, want, got)
+	}
+	switch want.K {
+	case jBool:
+		if want.B != got.B {
+			return fmt.Sprintf("at %s: expected %s, got %s", path, want, got)
+		}
+	case jNum, jStr:
+		if want.S != got.S {
+			return fmt.Sprintf("at %s: expected %s, got %s", path, want, got)
+		}
+	case jArr:
+		if len(want.A) != len(got.A) {
+			return fmt.Sprintf("at %s: expected %d items %s, got %d items %s", path, len(want.A), want, len(got.A), got)
+		}
+		et := t
+		if t != nil && t.isList() {
+			et = t.Elem
+		} else {
+			et = nil // list inside a custom scalar: compared as plain JSON
+		}
+		for i := range want.A {
+			if d := forwardedMatches(u, et, want.A[i], got.A[i], fmt.Sprintf("%s[%d]", path, i)); d != "" {
+				return d
+			}
+		}
+	case jObj:
+		var d *namedType
+		if t != nil && !t.isList() {
+			if nd := u[t.Name]; nd != nil && nd.Kind == kInput {
+				d = nd
+			}
+		}
+		for _, m := range want.O {
+			g, ok := got.get(m.Key)
+			if !ok {
+				return fmt.Sprintf("at %s: member %q is missing", path, m.Key)
+			}
+			var ft *typ
+			if d != nil {
+				if f := d.field(m.Key); f != nil {
+					ft = f.T
+				}
+			}
+			if df := forwardedMatches(u, ft, m.V, g, path+"."+m.Key); df != "" {
+				return df
+			}
+		}
+		for _, m := range got.O {
+			if _, ok := want.get(m.Key); ok {
+				continue
+			}
+			if d != nil {
+				if f := d.field(m.Key); f != nil && f.Default != "" {
+					continue // injected default
+				}
+			}
+			return fmt.Sprintf("at %s: member %q was added", path, m.Key)
+		}
+	}
+	return ""
 }
